@@ -42,6 +42,8 @@ QUERIES = [
     ("Of", "map fn_oracle_code fn_cases"),
     ("Me", "bad_indices expr_model_bad expr_cases"),
     ("Oe", "map expr_oracle_code expr_cases"),
+    ("Ma", "bad_indices assign_model_bad assign_cases"),
+    ("Oa", "bad_indices assign_oracle_bad assign_cases"),
     ("Mh", "bad_indices chain_model_bad chain_cases"),
     ("Oh", "map chain_oracle_code chain_cases"),
 ]
@@ -58,9 +60,10 @@ ASSUMPTIONS = [
 RULE = ("(1a) value sequences of 0-30 values (a pool of 2-5 small dyadic numbers -> many ties, booleans, nil, in 1 of 5 sequences also strings, rarely arrays) fed one by one to the real collectFns[first|last|top|bottom] with N in 1..5, every intermediate array compared (and every array handed out earlier re-checked for modification); "
         "(1b) argument arrays of 0-12 such values (also with strings / nested arrays) to the real evalFunctions[count first last sorted sum avg average med median min max] and the scalar functions abs floor ceil round on [], [nil], [x], [bool], [x,y], [string] incl. .5 ties; "
         "(1c) expressions (function calls with 0-3 arguments among array variables, an empty array, numbers, [x s], nil-valued calls such as first(e), nested calls, arithmetic / comparison around them) through the real compileExpr + (*audition).evalExpr; "
+        "(1d) the real processAssignments of an auditor with 1-3 computes/collects clauses called 3-14 times, before each call the input variables set (numbers, booleans, strings, arrays incl. the empty one, so that first(q)/max(q) are nil in the middle of the sequence) or left de-activated (dependency gate), 7 of 10 with input-only expressions (oracle: the real evaluator's value of each expression), the others with clauses over earlier targets; "
         "(2) audiences of 2-4 auditors (activation none/throughout/mood-based/signal-based) with 2-6 collects/computes clauses, each either over signals only or over variables defined earlier in the file by ANY member (so later members read earlier members' variables in the same round and earlier members read later members' variables one round late), an observer watching most variables, histories of 1-3 on-phases (mood red and x above the threshold) through the real audition via cmd.VerifAudition; "
         "plus the fixed corpus (witnesses of the refuted statements, past failures). "
-        "distinct = by printed Coq term; non-trivial = collect: more values than N+1; function: >= 2 arguments; expression: >= 2 calls; chain: >= 3 observations of computed/collected variables and >= 2 activation periods")
+        "distinct = by printed Coq term; non-trivial = collect: more values than N+1; function: >= 2 arguments; expression: >= 2 calls; processAssignments: >= 2 clauses and >= 5 calls; chain: >= 3 observations of computed/collected variables and >= 2 activation periods")
 
 
 def eval_shard(args):
@@ -102,20 +105,21 @@ def run(tier, seed):
     bins, ok = audcommon.prepare(res, ["c11"])
     if not ok:
         return res.finish()
-    nshards = 1 if tier == "quick" else 14
-    with concurrent.futures.ThreadPoolExecutor(max_workers=nshards) as ex:
+    nshards = 1 if tier == "quick" else 28
+    workers = min(nshards, 14)
+    with concurrent.futures.ThreadPoolExecutor(max_workers=workers) as ex:
         runs = list(ex.map(lambda i: run_one(bins, tier, seed, i, nshards), range(nshards)))
     for r, o in runs:
         if r is None:
             res.violation(None, "harness crashed", {"kind": "harness-crash", "output": o[-4000:]}, no_input=True)
             return res.finish()
-    with concurrent.futures.ThreadPoolExecutor(max_workers=nshards) as ex:
+    with concurrent.futures.ThreadPoolExecutor(max_workers=workers) as ex:
         evals = list(ex.map(eval_shard, [("%s%d" % (tier, i), r[0]) for i, (r, _) in enumerate(runs)]))
 
-    totals = {"collect": 0, "fn": 0, "expr": 0, "chain": 0}
+    totals = {"collect": 0, "fn": 0, "expr": 0, "assign": 0, "chain": 0}
     nontriv, stats = 0, {}
-    n_model = {"collect": 0, "fn": 0, "expr": 0, "chain": 0}
-    n_oracle = {"collect": 0, "fn": 0, "expr": 0, "chain": 0}
+    n_model = dict.fromkeys(totals, 0)
+    n_oracle = dict.fromkeys(totals, 0)
     seen = set()
     unexplained = []
     for shard, ((r, _), (rc, cout, vals, path)) in enumerate(zip(runs, evals)):
@@ -142,7 +146,7 @@ def run(tier, seed):
             res.violation(sig, text, obj)
 
         # ---- oracle failures: failing inputs of the property itself
-        bad = {"collect": set(vals["Oc"]), "fn": set(), "expr": set(), "chain": set()}
+        bad = {"collect": set(vals["Oc"]), "fn": set(), "expr": set(), "assign": set(vals["Oa"]), "chain": set()}
         for i in vals["Oc"]:
             c = cases["collect"][i]
             sig = "collect-modifies-an-array-handed-out-earlier" if not c["AliasOK"] else "collect-%s-wrong-array" % c["Mode"]
@@ -172,6 +176,13 @@ def run(tier, seed):
                 report("expression-wrong-result", "`%s` = %s (%s) is not the mathematically defined result" % (c["Src"], c["Val"], c["Kind"]),
                        {"input": {"src": c["Src"], "env": c["Env"]}, "observed": c["Val"], "result_kind": c["Kind"],
                         "replay": "cmd.VerifC11NewEvaluator().Eval(src, env)"})
+        for i in vals["Oa"]:
+            c = cases["assign"][i]
+            report("assignments-leave-a-wrong-value",
+                   "processAssignments: a computes variable is not the latest non-nil value / a collects variable not the first|last|top|bottom N of the values its expression took when its inputs were fresh",
+                   {"config": c["Cfg"], "steps": c["Steps"], "values_of_the_expressions": c["Produced"],
+                    "observed": [{"err": r["Err"], "panic": r["Panic"], "vals": r["Vals"]} for r in c["Results"]],
+                    "replay": "cmd.VerifC11Assign(config, \"al\", [q1 q2], steps)"})
         for i, code in enumerate(vals["Oh"]):
             if not code:
                 continue
@@ -187,7 +198,7 @@ def run(tier, seed):
         for k in n_oracle:
             n_oracle[k] += len(bad[k])
         # ---- model / implementation disagreements the oracle does not explain
-        for key, q in (("collect", "Mc"), ("fn", "Mf"), ("expr", "Me"), ("chain", "Mh")):
+        for key, q in (("collect", "Mc"), ("fn", "Mf"), ("expr", "Me"), ("assign", "Ma"), ("chain", "Mh")):
             n_model[key] += len(vals[q])
             for i in vals[q]:
                 if i not in bad[key]:
